@@ -108,12 +108,6 @@ func TestVerifC04RetryReplace(t *testing.T) {
 		p.steerStatic(vf)
 		m.pools = []*vfC04Pool{p}
 		m.yaml = vfC04ProxyYAML(m.pools)
-		px, err := vfC04NewProxy(m.yaml)
-		if err != nil {
-			rt.Fatalf("VF-INCONCLUSIVE generator produced a spec that validation rejects: %v\n%s", err, m.yaml)
-		}
-		defer px.Close()
-		m.px, p.sp = px, px.mainPool
 		// the pipeline-level policy, built and injected the way Pipeline.reload does it
 		maxAttempts := rapid.IntRange(2, 4).Draw(rt, "maxAttempts")
 		raw := map[string]interface{}{"kind": "Retry", "name": "vfretry", "maxAttempts": maxAttempts, "waitDuration": "1ms"}
@@ -124,7 +118,12 @@ func TestVerifC04RetryReplace(t *testing.T) {
 		if err != nil {
 			rt.Fatalf("VF-INCONCLUSIVE retry policy rejected: %v", err)
 		}
-		px.InjectResiliencePolicy(map[string]resilience.Policy{policy.Name(): policy})
+		px, err := vfC04NewProxy(m.yaml, policy)
+		if err != nil {
+			rt.Fatalf("VF-INCONCLUSIVE generator produced a spec that validation rejects: %v\n%s", err, m.yaml)
+		}
+		defer px.Close()
+		m.px, p.sp = px, px.mainPool
 		m.logf("retry policy: maxAttempts=%d waitDuration=1ms", maxAttempts)
 
 		// generation 1 of the instance list (quiescent)
